@@ -89,4 +89,55 @@ def txSigOpCostResult (t : TxFacts) (bip16 segwit : Bool) : String :=
       (if missing then "missing" else toString (c1 + sumInt (t.ins.map (·.witSigops))))
     else toString c1
 
+/-! ### BIP34: `ExtractCoinbaseHeight` / `CheckSerializedHeight` on the coinbase script (bytes as `Nat`s < 256) -/
+
+/-- little-endian magnitude bytes of `m < 2^32`, without leading (most significant) zero bytes; `m ≠ 0` -/
+def magBytes (m : Nat) : List Nat :=
+  if m < 256 then [m]
+  else if m < 65536 then [m % 256, m / 256]
+  else if m < 16777216 then [m % 256, m / 256 % 256, m / 65536]
+  else [m % 256, m / 256 % 256, m / 65536 % 256, m / 16777216]
+
+/-- `scriptNum.Bytes()` for `v ≠ 0`, `|v| < 2^32`: magnitude plus sign bit (an extra byte when bit 7 is taken) -/
+def scriptNumBytes (v : Int) : List Nat :=
+  let b := magBytes v.natAbs
+  let last := b.getLastD 0
+  if last ≥ 128 then b ++ [if v < 0 then 128 else 0]
+  else if v < 0 then b.dropLast ++ [last + 128] else b
+
+/-- `ScriptBuilder.AddInt64(v).Script()` for an int32 `v`: OP_0, OP_1NEGATE / OP_1..OP_16, or a minimal data push -/
+def pushInt (v : Int) : List Nat :=
+  if v = 0 then [0]
+  else if v = -1 ∨ (1 ≤ v ∧ v ≤ 16) then [(0x50 + v).toNat]
+  else (scriptNumBytes v).length :: scriptNumBytes v
+
+def isPrefixOf : List Nat → List Nat → Bool
+  | [], _ => true
+  | _ :: _, [] => false
+  | a :: as, b :: bs => a == b && isPrefixOf as bs
+
+inductive HeightErr | missing | bad
+  deriving DecidableEq, Repr
+
+/-- `ExtractCoinbaseHeight`: only the first four pushed bytes are read, then `compareScript` demands that the
+    script starts with the canonical push of the value read -/
+def extractHeight (s : List Nat) : Except HeightErr Int :=
+  match s with
+  | [] => .error .missing
+  | op :: rest =>
+    if op = 0 then .ok 0
+    else if 0x51 ≤ op ∧ op ≤ 0x60 then .ok ((op : Int) - 0x50)
+    else if rest.length < op then .error .missing
+    else
+      let b := (rest.take op).take 4
+      let u := b.getD 0 0 + 256 * b.getD 1 0 + 65536 * b.getD 2 0 + 16777216 * b.getD 3 0
+      let h : Int := if u ≥ 2147483648 then (u : Int) - 4294967296 else (u : Int)
+      if isPrefixOf (pushInt h) s then .ok h else .error .bad
+
+/-- `CheckSerializedHeight` -/
+def checkSerializedHeight (s : List Nat) (want : Int) : Bool :=
+  match extractHeight s with
+  | .ok h => h == want
+  | .error _ => false
+
 end BV.C01
